@@ -7,7 +7,9 @@ from common import rng
 FAMILY = "ladder"
 HARNESS = {"source": "x_ladder.c", "exclude_objs": ["loop"], "leak_clean": True}
 ENV = {"VERIF_LEAKCHECK": "1"}
-RULE = ("namesnorm: n = 1..5 names x every fault position; deser of table blobs: 0, 1, 3 and 11 (one bucket) keys x value "
+RULE = ("vclone / vdeser: cif_value_clone / cif_value_deserialize of value trees with tables at any depth (12 hand-picked: empty tables, "
+        "table in list in table, a bucket expansion inside a nested table; 25 / 400 random trees of depth <= 3) x every fault position; "
+        "namesnorm: n = 1..5 names x every fault position; deser of table blobs: 0, 1, 3 and 11 (one bucket) keys x value "
         "shapes x every fault position; mapset / mapdel / tclone: tables and packets with 0..10 keys sharing a uthash bucket (first bucket expansion at the 10th) "
         "and a table of 144 ordinary keys (first natural expansion), key new / present / present in another spelling, value "
         "NULL or of 4 shapes, every fault position; deser: every generated list shape without numbers x every fault position; packet: 0..9 names, each already normalised or respelled (13 fixed + random flag strings) x every fault position; "
@@ -149,6 +151,86 @@ def map_requests(r, tier):
                 yield " ".join(("ladder tclone T %d %s %s %d" % (len(keys), " ".join(keytok(x) for x in keys), st, k)).split())
 
 
+# ---- arbitrary value trees (Model/LadderTree): tables are ("T", [(key, value), …]) ---------------------------------
+
+def vtoks(sh):
+    if isinstance(sh, str):
+        return [sh]
+    if isinstance(sh, tuple):
+        out = ["{"]
+        for k, v in sh[1]:
+            out += [hx(k)] + vtoks(v)
+        return out + ["}"]
+    out = ["["]
+    for e in sh:
+        out += vtoks(e)
+    return out + ["]"]
+
+
+def vbound(sh):
+    """an upper bound of the number of requests of cif_value_clone (and so of cif_value_deserialize) for a tree: the exact
+    count without bucket expansions plus one per 9 entries of a table (an expansion needs at least 10 items)"""
+    if isinstance(sh, str):
+        return nallocs(sh)
+    if isinstance(sh, tuple):
+        es = sh[1]
+        return 1 + sum(3 + vbound(v) for _, v in es) + (2 if es else 0) + len(es) // 9
+    return 2 + sum(vbound(e) for e in sh)
+
+
+def has_table(sh):
+    if isinstance(sh, tuple):
+        return True
+    return (not isinstance(sh, str)) and any(has_table(e) for e in sh)
+
+
+def rand_tree(r, depth, pool):
+    x = r.random()
+    if depth > 0 and x < 0.25:
+        return [rand_tree(r, depth - 1, pool) for _ in range(r.randint(0, 3))]
+    if depth > 0 and x < 0.55:
+        keys = r.sample(pool, r.randint(0, 3))
+        return ("T", [(k, rand_tree(r, depth - 1, pool)) for k in keys])
+    return r.choice(["S", "C", "C", "M0", "M1"])
+
+
+def tree_requests(r, tier):
+    """cif_value_clone / cif_value_deserialize of values with tables at any depth: hand-picked trees (empty tables, tables in
+    lists in tables, 11 keys of one uthash bucket inside a NESTED table so that the bucket expansion happens there) and
+    random trees, every fault position"""
+    coll = colliding("k", 3, 5, 12)
+    T = lambda *kv: ("T", list(kv))
+    trees = [T(), T(("a", "S")), T(("a", "C"), ("b", "M1")), [T(("a", "C"))], ["C", T(("a", [T(("b", "M0"))])), "S"],
+             T(("a", T(("b", T(("c", "C")))))), T(("a", []), ("b", T())), [T(), T()],
+             T(("a", ["C", T(("b", "M1"), ("c", []))]), ("d", T(("a", "S")))),
+             T(("x", T(*[(k, "S") for k in coll[:11]]))),            # expansion in a nested table (10th item of one bucket)
+             [T(*[(k, "C") for k in coll[:10]])],                    # … in a table that is a list element
+             T((coll[0], T(*[(k, "S") for k in coll[:10]])), (coll[1], "C"))]
+    if tier != "quick":
+        trees += [T(*[(k, T((coll[0], "C"))) for k in coll[:11]]),  # expansion of the OUTER table while inner tables exist
+                  T(*[("r%d" % i, "S") for i in range(146)])]
+    pool = coll[:6] + ["a", "b", "zz", "e" + chr(0x301)]
+    n_rand = 25 if tier == "quick" else 400
+    while n_rand > 0:
+        t = rand_tree(r, 3, pool)
+        if has_table(t) and vbound(t) <= 90:
+            trees.append(t); n_rand -= 1
+    for t in trees:
+        tt = " ".join(vtoks(t))
+        for k in range(0, vbound(t) + 2):
+            yield "ladder vclone %s %d" % (tt, k)
+        if not isinstance(t, str):
+            for k in range(0, vbound(t) + 1):
+                yield "ladder vdeser %s %d" % (tt, k)
+    # the table-free shapes go through the general model too
+    for sh in ["S", "C", "M1", [], ["C", "M0"], [[], ["C", ["M1"]], "S"]]:
+        for k in range(0, nallocs(sh) + 2):
+            yield "ladder vclone %s %d" % (" ".join(toks(sh)), k)
+        if isinstance(sh, list):
+            for k in range(0, nallocs(sh) + 1):
+                yield "ladder vdeser %s %d" % (" ".join(toks(sh)), k)
+
+
 def rand_nonum(r, depth):
     if depth > 0 and r.random() < 0.4:
         return [rand_nonum(r, depth - 1) for _ in range(r.randint(0, 4))]
@@ -176,6 +258,8 @@ def generate(seed, tier):
             for k in range(0, total + 2):
                 yield " ".join(("ladder deser { %s } %d" % (body, k)).split())
     for q in map_requests(r, tier):
+        yield q
+    for q in tree_requests(r, tier):
         yield q
     # cif_packet_create: at most 9 names, so that no uthash bucket can reach the expansion threshold of 10 entries
     flagsets = ["-", "n", "r", "nn", "nr", "rn", "rr", "nrn", "rrn", "nnnn", "rnrnr", "rrrrrrrrr", "nnnnnnnnn"]
@@ -242,6 +326,9 @@ def oracle(req, impl):
     for bad in ("later-insert=", "unreadable@", "size="):
         if bad in impl:
             return "the caller's list is not usable as a list after the call: " + impl.split(bad, 1)[1].split()[0].join([bad, ""])
+    for mark, what in (("!NOCLONE", "cif_value_clone returned CIF_OK without a clone"), ("!CLONESET", "cif_value_clone failed but set *clone")):
+        if mark in impl:
+            return what
     for mark in ("!PNAME", "!PCOUNT", "!PITEM", "!NOPACKET", "!TEXT", "!NEWVALUE"):
         if mark in impl:
             return "after success the created packet / the character value is not what was requested: " + mark
